@@ -686,6 +686,20 @@ def client_state(u):
             dict(name='fn_client_formats_download', params=FP, result=FR, call=formats_after('download'))]
 
 
+def composite(u):
+    """C14: the consistency check of a composite definition by memory address (DynamicDidDefinition.get_alfid)"""
+    from udsoncan import MemoryLocation, DynamicDidDefinition
+
+    def alfid_of(*fmts):
+        d = DynamicDidDefinition()
+        for k in range(0, len(fmts), 2):
+            d.add(MemoryLocation(0x10 + k, 4, fmts[k], fmts[k + 1]))
+        return d.get_alfid().get_byte_as_int()
+    P = [('af1', 'Z'), ('sf1', 'Z'), ('af2', 'Z'), ('sf2', 'Z'), ('af3', 'Z'), ('sf3', 'Z')]
+    return [dict(name='fn_composite_alfid2', params=P[:4], result='Z', call=alfid_of),
+            dict(name='fn_composite_alfid3', params=P, result='Z', call=alfid_of)]
+
+
 def pick(names):
     return lambda u: [sp for sp in helpers(u) if sp['name'] in names]
 
@@ -704,6 +718,7 @@ def files(u):
              lambda u: [sp for sp in client_state(u) if 'timing' in sp['name']]),
             ('Fn_ClientFormats.v', 'udsoncan/client.py (read_memory_by_address, write_memory_by_address, request_download: the configured server formats applied to the caller\'s MemoryLocation)',
              lambda u: [sp for sp in client_state(u) if 'formats' in sp['name']]),
+            ('Fn_Composite.v', 'udsoncan/common/DynamicDidDefinition.py (add, get_alfid), MemoryLocation.py', composite),
             ('Fn_Unlock.v', 'udsoncan/client.py (unlock_security_access, request_seed, send_key; send_request replaced by two scripted replies)', unlock),
             ('Fn_SendRequest.v', 'udsoncan/client.py (send_request, on a symbolic clock)',
              lambda u: [sp for sp in send_request(u) if not any(k in sp['name'] for k in CTX_KINDS)]),
